@@ -606,3 +606,263 @@ Proof.
   destruct (negb (has_perms c "groupaction" "listtokens")); finish_ok H; [discriminate|].
   reflexivity.
 Qed.
+
+(* ------------------------------------------------------------------ *)
+(* Revocation                                                         *)
+
+(* (1) whatever the loop of client h does (read a message, serve its queue,
+   end), the (group, permissions) of every OTHER client stay what they were:
+   a permission change is only ever applied by the target's own loop *)
+
+Lemma handle_join_frame : forall w h c m r,
+  handle_join w h c m = Ok r -> gp_frame (Some h) w (r_world r).
+Proof.
+  intros w h c m r H. unfold handle_join in H.
+  destruct (String.eqb (m_kind m) "leave").
+  { repeat break_hyp H; finish_ok H; try apply gpf_refl. apply leave_group_frame. }
+  destruct (negb (String.eqb (m_kind m) "join")); [finish_ok H; apply gpf_refl|].
+  destruct (c_group c) eqn:Eg; [finish_ok H; apply gpf_refl|].
+  cbv zeta in H.
+  match type of H with (if ?b then _ else _) = _ => destruct b end.
+  { finish_ok H. gpf. }
+  destruct (add_client _ _ _ _ _ _ _) as [w1 oe] eqn:Ea.
+  assert (Hf1 : gp_frame (Some h) w w1).
+  { eapply gpf_trans; [|eapply add_client_frame; exact Ea].
+    apply gpf_upd_pres. intro; reflexivity. }
+  destruct oe as [e|].
+  - destruct (join_fail_text e) as [ec v]. finish_ok H.
+    eapply gpf_peel; [apply gpf_send|]. eapply gpf_peel; [apply gpf_upd_self|]. exact Hf1.
+  - finish_ok H. eapply gpf_peel; [apply gpf_upd_self|]. exact Hf1.
+Qed.
+
+Theorem message_frame : forall w h c m r,
+  handle_client_message w h c m = Ok r -> gp_frame (Some h) w (r_world r).
+Proof.
+  intros w h c m r H. unfold handle_client_message in H.
+  match type of H with (if ?b then _ else _) = _ => destruct b end; [finish_ok H; apply gpf_refl|].
+  match type of H with (if ?b then _ else _) = _ => destruct b end; [finish_ok H; apply gpf_refl|].
+  cbv zeta in H.
+  destruct (String.eqb (m_type m) "join"); [eapply handle_join_frame; eauto|].
+  destruct (String.eqb (m_type m) "request"); [apply gpf_weaken; eapply handle_request_stable; eauto|].
+  destruct (String.eqb (m_type m) "requestStream"); [apply gpf_weaken; eapply handle_request_stream_stable; eauto|].
+  destruct (String.eqb (m_type m) "offer"); [apply gpf_weaken; eapply handle_offer_stable; eauto|].
+  destruct (String.eqb (m_type m) "answer"); [apply gpf_weaken; eapply handle_answer_stable; eauto|].
+  destruct (String.eqb (m_type m) "renegotiate"); [apply gpf_weaken; eapply handle_renegotiate_stable; eauto|].
+  destruct (String.eqb (m_type m) "close"); [apply gpf_weaken; eapply handle_close_stable; eauto|].
+  destruct (String.eqb (m_type m) "abort"); [apply gpf_weaken; eapply handle_abort_stable; eauto|].
+  destruct (String.eqb (m_type m) "ice"); [apply gpf_weaken; eapply handle_ice_stable; eauto|].
+  destruct (String.eqb (m_type m) "chat" || String.eqb (m_type m) "usermessage");
+    [apply gpf_weaken; eapply handle_chat_stable; eauto|].
+  destruct (String.eqb (m_type m) "groupaction"); [apply gpf_weaken; eapply handle_groupaction_stable; eauto|].
+  destruct (String.eqb (m_type m) "useraction"); [apply gpf_weaken; eapply handle_useraction_stable; eauto|].
+  destruct (String.eqb (m_type m) "pong"); [finish_ok H; apply gpf_refl|].
+  destruct (String.eqb (m_type m) "ping"); [finish_ok H; gpf|].
+  finish_ok H. apply gpf_refl.
+Qed.
+
+Lemma action_frame : forall w h c a r,
+  handle_action w h c a = Ok r -> gp_frame (Some h) w (r_world r).
+Proof.
+  intros w h c a r H. unfold handle_action in H. destruct a.
+  - handler_stable H.
+  - cbv zeta in H. repeat break_hyp H; finish_ok H; try apply gpf_refl.
+    apply gpf_fold. intros. destruct (_ && _); gpf.
+  - handler_stable H.
+  - handler_stable H.
+  - cbv zeta in H. repeat break_hyp H; finish_ok H; gpf.
+  - cbv zeta in H. repeat break_hyp H; finish_ok H; try apply gpf_refl.
+    eapply gpf_peel; [apply gpf_enq|]. apply gpf_upd_self.
+  - destruct (c_group c); [|finish_ok H; apply gpf_refl].
+    cbv zeta in H. finish_ok H. destruct (mem "present" (c_perms c)); gpf.
+  - finish_ok H. apply gpf_refl.
+Qed.
+
+Lemma run_batch_frame : forall q w h r, run_batch q w h = Ok r -> gp_frame (Some h) w (r_world r).
+Proof.
+  induction q as [|a q IH]; intros w h r H; cbn [run_batch] in H.
+  - finish_ok H. apply gpf_refl.
+  - destruct (get_client w h) as [c|]; [|finish_ok H; apply gpf_refl].
+    destruct (handle_action w h c a) as [res|] eqn:Ea; [|discriminate].
+    pose proof (action_frame _ _ _ _ _ Ea) as F.
+    destruct (r_err res); try (inversion H; subst; exact F).
+    eapply gpf_trans; [exact F | eapply IH; eauto].
+Qed.
+
+Lemma finish_frame : forall o h wrap w w' r,
+  (forall res, o = Ok res -> gp_frame (Some h) w (r_world res)) ->
+  finish o h wrap = Running w' r -> gp_frame (Some h) w w'.
+Proof.
+  intros o h wrap w w' r Ho H. unfold finish in H.
+  destruct o as [res|]; [|discriminate].
+  specialize (Ho res eq_refl).
+  destruct (r_err res); inversion H; subst; try exact Ho;
+    (eapply gpf_trans; [exact Ho | apply error_close_frame]).
+Qed.
+
+(* the three things the loop of h can do *)
+Theorem own_loop_only : forall w h w' r o,
+  (o = OpPump h \/ o = OpDisconnect h \/ exists m, o = OpMsg h m) ->
+  step w o = Running w' r -> gp_frame (Some h) w w'.
+Proof.
+  intros w h w' r o Ho H. destruct Ho as [-> | [-> | (m & ->)]]; cbn [step] in H.
+  - unfold step_pump in H.
+    destruct (get_client w h) as [c|]; [|inversion H; subst; apply gpf_refl].
+    destruct (c_closed c); [inversion H; subst; apply gpf_refl|].
+    cbv zeta in H.
+    eapply gpf_trans with (w2 := upd w h (fun c0 => set_queue c0 []));
+      [apply gpf_upd_pres; intro; reflexivity|].
+    eapply finish_frame; [|exact H]. intros res Hr. eapply run_batch_frame; exact Hr.
+  - unfold step_disconnect in H.
+    destruct (get_client w h) as [c|]; [|inversion H; subst; apply gpf_refl].
+    destruct (c_closed c); inversion H; subst; [apply gpf_refl | apply error_close_frame].
+  - unfold step_msg in H.
+    destruct (get_client w h) as [c|]; [|inversion H; subst; apply gpf_refl].
+    destruct (c_closed c); [inversion H; subst; apply gpf_refl|].
+    eapply finish_frame; [|exact H]. intros res Hr. eapply message_frame; eauto.
+Qed.
+
+(* (2) when the target serves the queued change, in the group in which it
+   was issued, its permission set becomes the new one at once, and the
+   notification is queued behind it *)
+Theorem change_applied : forall w h c g kind r,
+  get_client w h = Some c -> c_group c = Some g ->
+  handle_action w h c (AChangePerms g kind) = Ok r -> r_err r = ENone ->
+  exists p' c',
+    change_perms (match find_group w g with Some gr => d_allowrec (g_desc gr) | None => false end)
+                 kind (c_perms c) = Some p' /\
+    get_client (r_world r) h = Some c' /\
+    c_perms c' = p' /\ c_group c' = Some g /\ c_queue c' = app (c_queue c) [APermsChanged].
+Proof.
+  intros w h c g kind r Hc Hg H He. cbn [handle_action] in H.
+  rewrite Hg in H. cbn [opt_str_eqb] in H. rewrite String.eqb_refl in H. cbn [negb] in H.
+  cbv zeta in H. destruct (change_perms _ _ _) as [p|] eqn:Ecp.
+  - finish_ok H. exists p.
+    eexists. split; [reflexivity|]. split.
+    + unfold enq. rewrite !get_client_upd, Nat.eqb_refl, Hc. cbn. reflexivity.
+    + cbn. auto.
+  - finish_ok H. cbn in He. discriminate.
+Qed.
+
+(* ... and in any other group, or in none, it is ignored (5abb458) *)
+Theorem change_ignored_elsewhere : forall w h c g kind r,
+  c_group c <> Some g ->
+  handle_action w h c (AChangePerms g kind) = Ok r -> r_world r = w /\ r_err r = ENone.
+Proof.
+  intros w h c g kind r Hg H. cbn [handle_action] in H.
+  destruct (opt_str_eqb (c_group c) (Some g)) eqn:E.
+  - apply opt_str_eqb_true in E. destruct E as (g' & E1 & E2). inversion E2; subst. congruence.
+  - cbn [negb] in H. finish_ok H. auto.
+Qed.
+
+(* (3) the notification carries the current set, and a client that has lost
+   `present` has no up stream left when it is notified *)
+
+Definition cup (w : world) (h : nat) : option (list upconn) := option_map c_up (get_client w h).
+
+Definition up_pres (f : client -> client) : Prop := forall c, c_up (f c) = c_up c.
+
+Lemma cup_upd_pres : forall w i f h, up_pres f -> cup (upd w i f) h = cup w h.
+Proof.
+  intros w i f h Hf. unfold cup. rewrite get_client_upd.
+  destruct (Nat.eqb h i); [|reflexivity]. destruct (get_client w h); cbn; [|reflexivity].
+  now rewrite Hf.
+Qed.
+Lemma cup_enq : forall w i a h, cup (enq w i a) h = cup w h.
+Proof. intros. apply cup_upd_pres. intro; reflexivity. Qed.
+Lemma cup_send : forall w i m h, cup (send w i m) h = cup w h.
+Proof. intros. apply cup_upd_pres. intro; reflexivity. Qed.
+Lemma cup_fold : forall (A : Type) (F : world -> A -> world) l w h,
+  (forall w a, cup (F w a) h = cup w h) -> cup (fold_left F l w) h = cup w h.
+Proof.
+  intros A F l. induction l as [|a l IH]; intros w h H; cbn [fold_left]; [reflexivity|].
+  rewrite IH by exact H. apply H.
+Qed.
+Lemma cup_enq_all : forall w hs a h, cup (enq_all w hs a) h = cup w h.
+Proof. intros. apply cup_fold. intros. apply cup_enq. Qed.
+Lemma cup_fail_up : forall w i c id m h, cup (fail_up_connection w i c id m) h = cup w h.
+Proof.
+  intros. unfold fail_up_connection, send_error.
+  destruct (is_empty id), (is_empty m); rewrite ?cup_send; reflexivity.
+Qed.
+
+Lemma del_up_list_none : forall l id,
+  find (fun u => String.eqb (up_id u) id) l = None -> del_up_list l id = l.
+Proof.
+  induction l as [|u l IH]; intros id H; cbn in *; [reflexivity|].
+  destruct (String.eqb (up_id u) id); [discriminate|]. cbn [negb].
+  f_equal. apply IH. exact H.
+Qed.
+
+Lemma cup_del_up_conn : forall w h id push,
+  cup (fst (del_up_conn w h id push)) h = option_map (fun l => del_up_list l id) (cup w h).
+Proof.
+  intros. unfold del_up_conn.
+  destruct (get_client w h) as [c|] eqn:Ec.
+  2:{ cbn [fst]. unfold cup. rewrite Ec. reflexivity. }
+  unfold find_up. destruct (find _ (c_up c)) eqn:Ef.
+  - cbn [fst].
+    assert (E : cup (upd w h (fun c0 => set_up c0 (del_up_list (c_up c0) id))) h
+                = option_map (fun l => del_up_list l id) (cup w h)).
+    { unfold cup. rewrite get_client_upd, Nat.eqb_refl, Ec. reflexivity. }
+    destruct (c_group c); [destruct push|]; try exact E.
+    rewrite cup_enq_all. exact E.
+  - cbn [fst]. unfold cup. rewrite Ec. cbn [option_map]. now rewrite del_up_list_none.
+Qed.
+
+Lemma cup_drop_all_ups : forall l w h c,
+  cup (drop_all_ups l w h c) h =
+  option_map (fun u => fold_left (fun u x => del_up_list u (up_id x)) l u) (cup w h).
+Proof.
+  induction l as [|x l IH]; intros w h c; cbn [drop_all_ups fold_left].
+  - destruct (cup w h); reflexivity.
+  - destruct (del_up_conn w h (up_id x) true) as [w1 found] eqn:E.
+    assert (E1 : cup w1 h = option_map (fun l => del_up_list l (up_id x)) (cup w h)).
+    { replace w1 with (fst (del_up_conn w h (up_id x) true)) by now rewrite E.
+      apply cup_del_up_conn. }
+    destruct found; rewrite IH; rewrite ?cup_fail_up, E1; destruct (cup w h); reflexivity.
+Qed.
+
+Lemma drop_all_self : forall l u,
+  (forall x, In x u -> In x l) ->
+  fold_left (fun u x => del_up_list u (up_id x)) l u = [].
+Proof.
+  induction l as [|a l IH]; intros u H; cbn [fold_left].
+  - destruct u as [|x u]; [reflexivity|]. destruct (H x (or_introl eq_refl)).
+  - apply IH. intros x Hx. unfold del_up_list in Hx. apply filter_In in Hx.
+    destruct Hx as [Hx Hne]. destruct (H x Hx) as [->|Hl]; [|exact Hl].
+    rewrite String.eqb_refl in Hne. discriminate.
+Qed.
+
+Theorem notified : forall w h c g r,
+  get_client w h = Some c -> c_group c = Some g ->
+  handle_action w h c APermsChanged = Ok r ->
+  let w1 := send w h (out_joined "change" g (c_username c) (c_perms c) "" "" (locked_flag w g)) in
+  let w2 := if mem "present" (c_perms c) then w1 else drop_all_ups (c_up c) w1 h c in
+  (* the client is sent joined/change with exactly its current set, ... *)
+  r_world r = push_client_all w2 g (members w2 g) "change" (c_id c) (c_username c) (c_perms c) (c_data c) /\
+  r_err r = ENone /\
+  exists c', get_client (r_world r) h = Some c' /\
+    c_perms c' = c_perms c /\
+    (* ... and if `present` is not in it, no up stream is left *)
+    (mem "present" (c_perms c) = false -> c_up c' = []).
+Proof.
+  intros w h c g r Hc Hg H w1 w2. cbn [handle_action] in H. rewrite Hg in H. cbv zeta in H.
+  finish_ok H. fold w1. fold w2.
+  split; [reflexivity|]. split; [reflexivity|].
+  set (w3 := push_client_all w2 g (members w2 g) "change" (c_id c) (c_username c) (c_perms c) (c_data c)).
+  assert (F : gp_frame None w w3).
+  { subst w3 w2 w1. destruct (mem "present" (c_perms c)); gpf. }
+  specialize (F h). unfold gpof in F. rewrite Hc in F. cbn [option_map] in F.
+  destruct (get_client w3 h) as [c'|] eqn:Ec'.
+  2:{ exfalso. assert (None = Some (gp c)) by (apply F; discriminate). discriminate. }
+  exists c'. split; [reflexivity|].
+  assert (Hgp : Some (gp c') = Some (gp c)) by (apply F; discriminate).
+  split.
+  - unfold gp in Hgp. congruence.
+  - intro Hpres.
+    assert (Hcup : cup w3 h = Some []).
+    { subst w3. unfold push_client_all. rewrite cup_enq_all. subst w2. rewrite Hpres.
+      rewrite cup_drop_all_ups. subst w1. rewrite cup_send. unfold cup. rewrite Hc.
+      cbn [option_map]. rewrite drop_all_self; [reflexivity | auto]. }
+    unfold cup in Hcup. rewrite Ec' in Hcup. cbn [option_map] in Hcup. congruence.
+Qed.
